@@ -22,7 +22,11 @@ REPLY = lambda rep: bytes([5, rep, 0, 1, 0, 0, 0, 0, 0, 0])
 
 
 def corpus_cases():
-    return corpus("C16")
+    cs = corpus("C16")
+    for c in cs:
+        if c.drv in ():
+            c.model = False      # end-to-end drivers have no model side (oracle only)
+    return cs
 
 
 def ref_request(cur):
